@@ -42,7 +42,9 @@ def run(ck: Check):
                    (b"caf\xc3\xa9 crashed\n", b""), (b"", b"h\xc3\xa9llo\n"), (b"a\xffb\n", b"\xe2\x82\xac1\n")]
         literals = ["hello", "line two", "one\nline", "zzz", "", "llo", "he", "a\ufffdb", "\u00e9", "caf\u00e9"]
         regexes = ["he.lo", "^line two$", "one\\nline", "h[a-z]+o w", "^oops", "z+", "two$", "^$",
-                   "^caf. crashed$", "^\\w+$", "caf..", "a.b", "^.1$", "h..llo"]
+                   "^caf. crashed$", "^\\w+$", "caf..", "a.b", "^.1$", "h..llo",
+                   # patterns whose match is the EMPTY string (a match all the same)
+                   "(?=hello)", "x*", "\\b(?=line two$)", "(?:fatal)?", "^(?=oops: )", "$"]
         jobs = []
         for (o, e) in streams:
             for s in literals:
@@ -52,7 +54,8 @@ def run(ck: Check):
                 for mode in (False, True):
                     jobs.append(("re", o, e, s, mode))
         if quick:
-            jobs = [j for i, j in enumerate(jobs) if i % 2 == 0 or j[3] in ("he.lo", "hello")]
+            jobs = [j for i, j in enumerate(jobs) if i % 2 == 0 or j[3] in ("he.lo", "hello", "^$", "(?=hello)", "x*",
+                                                                             "(?:fatal)?", "^(?=oops: )", "$")]
 
         def do_outputs(idx_j):
             idx, (kind, o, e, s, mode) = idx_j
